@@ -15,8 +15,10 @@ Pow(b, n) == IF n = 0 THEN 1 ELSE b * Pow(b, n - 1)
 RECURSIVE NeededBytes(_)
 NeededBytes(v) == IF v < Radix THEN 1 ELSE 1 + NeededBytes(v \div Radix)
 
-(* an unsigned value fits w digits *)
-FitsU(v, w) == v >= 0 /\ v < Pow(Radix, w)
+(* an unsigned value fits w digits: v < Radix^w, stated on the digit count so that widths whose power
+   exceeds TLC's 32-bit integers (4 bytes and more with Radix = 256) can be evaluated; MC_Bytes!L3 checks
+   that the two statements are the same *)
+FitsU(v, w) == v >= 0 /\ NeededBytes(v) <= w
 
 (* a signed value fits w digits in two's complement *)
 FitsS(v, w) == LET half == Pow(Radix, w) \div 2 IN v >= -half /\ v < half
